@@ -7,6 +7,29 @@ KERNEL_NOTE = ('Trusted: Lean kernel; axioms propext/Classical.choice/Quot.sound
                'deterministic fakes on the Python side and by the recorded answers on the model side); kernel contracts are hypotheses; '
                'exact field arithmetic (IEEE rounding not modelled).')
 CHECKS = {
+ 'C05': {
+  'text': 'Proof (full for the chains->graph clause; graph->MPO conditional on the conversion returning): the half-chain partition and the site step preserve the weighted sum for ANY cover routine; '
+          'from_opchains denotes exactly the sum of padded chains (duplicates, accumulation, cancellation, single chain with any coefficient, L = 1), the graph is consistent, has the requested '
+          'length, and under the decidable guard ChainsWF the call returns (uses C18); from_opgraph tensors contract to the graph denotation for every operator map, bond charges are node charges '
+          'in sorted-id order, the node map locates every node (14 theorems). Tie: exact correspondence of complete graphs/MPOs incl. exhaustive small chain lists.',
+  'note': KERNEL_NOTE + ' No kernel contracts. from_opgraph theorems assume the call returns (operator ids present, charge-consistent operators).',
+  'design_ref': 'DESIGN.md §7 C05',
+ },
+ 'C13': {
+  'text': 'Proof (full): for both modes, all admissible states and 0 <= tol < 1 under the QR/SVD/norm/sort/abs contracts: compress returns without error, first return value is the norm, '
+          'result well formed with no larger bonds, scale in [sqrt(1-L tol), 1], canonical unit-norm result, exact at tol 0, error identity |nrm*scale*new - old|^2 = nrm^2 (1-scale^2) <= nrm^2 L tol, '
+          'the first truncated bond keeps exactly the Schmidt values prescribed by the rule, from_vector error <= sqrt(L tol) (13 theorems; an SVD kernel satisfying the contract is constructed '
+          'from the spectral theorem for non-vacuity). Tie: exact correspondence of compress/from_vector under uninterpreted kernels.',
+  'note': KERNEL_NOTE + ' QRKernel, SVDContract, NormContract, SortContract, AbsContract are assumptions about NumPy/LAPACK.',
+  'design_ref': 'DESIGN.md §7 C13',
+ },
+ 'C17': {
+  'text': 'Proof (nearly full): graph from an automaton denotes the sum over automaton paths (site-dependent activity/coefficients, dead states pruned), is consistent and of length L; inserting chains/subtrees '
+          'adds exactly their padded path sums; graph from a tree list denotes the sum of padded trees before and after simplify and is consistent; dense meaning of chains, trees (incl. unequal heights, '
+          'single leaf) and graphs (both directions) equals the symbolic meaning under any operator map (21 theorems). Not proved: length = L after the final simplify (proved before it), totality.',
+  'note': KERNEL_NOTE + ' No kernel contracts.',
+  'design_ref': 'DESIGN.md §7 C17',
+ },
  'C02': {
   'text': 'Proof (partial): the well-formedness invariant (every charge list has the length of the dimension it labels, every non-zero entry obeys the additive rule) is preserved by every '
           'modelled public operation (orthonormalize MPS/MPO both modes incl. dummy bonds, +, -, @, apply_operator, zero_qnumbers, copy) for every kernel with the shape clause only, '
@@ -52,10 +75,10 @@ CHECKS = {
   'design_ref': 'DESIGN.md §7 C01',
  },
  'C03': {
-  'text': 'Proof (full except sparse=dense form): for all L>=1 (L=1 and L=2 special cases included), d, independent bond profiles over any commutative ring: MPS a+-b, MPO a+-b, MPO product, '
+  'text': 'Proof (full): for all L>=1 (L=1 and L=2 special cases included), d, independent bond profiles over any commutative ring: MPS a+-b, MPO a+-b, MPO product, '
           'apply_operator and the identity MPO have the digit-indexed dense meaning of the corresponding dense expression; merging neighbouring tensors preserves the dense meaning and '
           'as_vector/as_matrix list exactly the amplitudes in row-major digit order (22 theorems incl. *_ok, closure under chaining, from_vector(tol=0) and split/merge at tol 0 under the SVD/norm/sort contracts). '
-          'Only the equality of the scipy-sparse and dense as_matrix forms has no theorem (the sparse path is not modelled); it is compared by the correspondence.',
+          'The scipy-sparse as_matrix path is modelled step by step and proved equal to the dense form (both d^L x d^L with entries o.elem) for d >= 1 and positive bonds (25 theorems).',
   'note': KERNEL_NOTE + ' SVDContract is an assumption about np.linalg.svd where used.',
   'design_ref': 'DESIGN.md §7 C03',
  },
